@@ -190,4 +190,222 @@ Proof.
   apply IH; auto.
 Qed.
 
+
+(* ---------------------------------------------------------------- EndDefragPass *)
+
+Lemma set_ud_MM w X lr bid h tag w' : MM ms0 w X -> set_block_user_data w lr bid h tag = Some w' -> MM ms0 w' X.
+Proof.
+  intros HM. unfold set_block_user_data. destruct (get_block w lr bid) as [b|] eqn:Hgb; [|discriminate].
+  destruct (meta_set_user_data (bk_meta b) h tag) as [mt|]; [|discriminate]. intros E. injection E as <-.
+  destruct (get_block_in _ _ _ _ Hgb) as (l & Hg & Hb & Hid).
+  apply (VamMapStep.MM_put_same c Hc Hmax Hlarge ms0 w X lr b); [exact HM|cbn [bk_id]; rewrite Hid; exact Hgb|reflexivity|reflexivity].
+Qed.
+
+(* an Allocation object that is not a dedicated allocation before or after is written *)
+Lemma MM_set_alloc_nd w X s a' :
+  MM ms0 w X -> (forall a, slot_is w s a -> a_kind a <> 2) -> (a_allocated a' = true -> a_kind a' <> 2) -> MM ms0 (set_alloc w s a') X.
+Proof.
+  intros (I & L) Hold Hnew. split; [|exact L].
+  apply (MapInv_sub w X); [exact I|reflexivity|apply blocks_sub_eq; intros; apply get_blist_set_alloc|].
+  intros s1 a1 S1 HX K1. destruct (Z.eq_dec s1 s) as [->|Hne].
+  - exfalso. destruct (nth_z (v_tab w) s) as [x|] eqn:E.
+    + apply slot_is_set_alloc_same in S1; [|eapply nth_z_some_range; eauto]. destruct S1 as (-> & Ha). apply (Hnew Ha K1).
+    + destruct S1 as (S1 & _). unfold set_alloc in S1. cbn in S1. rewrite nth_z_set_none in S1 by exact E. discriminate.
+  - exists s1, a1. split; [apply (slot_is_set_alloc_other w s a' s1 a1 Hne); exact S1|auto].
+Qed.
+
+Lemma swap_MM v X s t a b :
+  MM ms0 v X -> slot_is v s a -> slot_is v t b -> s <> t -> a_kind a = 1 -> a_kind b = 1 ->
+  MM ms0 (fst (swap_block_allocation v s t)) X.
+Proof.
+  intros HM Sa Sb Hst Ka Kb. unfold swap_block_allocation. rewrite (get_alloc_slot _ _ _ Sa), (get_alloc_slot _ _ _ Sb).
+  destruct (_ || _); [exact HM|].
+  destruct (set_block_user_data v (a_lref a) (a_blk a) (a_handle a) t) as [v1|] eqn:E1; [|exact HM].
+  pose proof (set_ud_MM v X _ _ _ _ _ HM E1) as M1. destruct (set_ud_m_tab c Hc Hmax Hlarge _ _ _ _ _ _ E1) as (_ & T1).
+  match goal with |- context [set_alloc (set_alloc v1 s ?x) t ?y] => set (a' := x); set (b' := y) end.
+  assert (M2 : MM ms0 (set_alloc (set_alloc v1 s a') t b') X).
+  { apply MM_set_alloc_nd; [apply MM_set_alloc_nd; [exact M1| |]| |].
+    - intros x Sx. assert (x = a) by (unfold slot_is in Sx; rewrite T1 in Sx; destruct Sx, Sa; congruence). subst x. rewrite Ka. discriminate.
+    - intros _. unfold a'. cbn. rewrite Ka. discriminate.
+    - intros x Sx. apply (slot_is_set_alloc_other v1 s a' t x) in Sx; [|congruence].
+      assert (x = b) by (unfold slot_is in Sx; rewrite T1 in Sx; destruct Sx, Sb; congruence). subst x. rewrite Kb. discriminate.
+    - intros _. unfold b'. cbn. rewrite Kb. discriminate. }
+  match goal with |- context [set_block_user_data ?w ?a1 ?a2 ?a3 s] => destruct (set_block_user_data w a1 a2 a3 s) as [v3|] eqn:E3 end; cbn [fst]; [|exact M2].
+  exact (set_ud_MM _ X _ _ _ _ _ M2 E3).
+Qed.
+
+Lemma free_or_panic_MM v s :
+  VamInv c v -> MM ms0 v [] -> let '(v', r) := free_or_panic c v s in match r with OK _ => MM ms0 v' [] | _ => True end.
+Proof.
+  intros HI HM. unfold free_or_panic. destruct (a_allocated (get_alloc v s)) eqn:Ea; cbn [negb]; [|exact I].
+  destruct (a_kind (get_alloc v s) =? 1) eqn:Ek; cbn [negb]; [|exact I]. apply Z.eqb_eq in Ek.
+  pose proof (VamMapStep.bl_free_MM c Hc Hmax Hlarge ms0 v [] [] s (get_alloc v s) false HM HI (get_alloc_allocated _ _ Ea) (fun H => H) Ek) as P.
+  destruct (bl_free c v (a_lref (get_alloc v s)) s false) as (v1 & r). destruct r as [[]|code| |]; auto.
+  apply (VamMapStep.MM_unmark c Hc Hmax Hlarge ms0); [|reflexivity].
+  eapply (VamMapStep.MM_weaken c Hc Hmax Hlarge ms0); [exact P|intros ? []].
+Qed.
+
+Lemma complete_move_MM v lr mv d :
+  VamInv c v -> MM ms0 v [] -> mv_ok v lr mv -> src_of mv <> tmp_of mv ->
+  let '(v', r) := complete_move c v mv d in match r with OK _ => MM ms0 v' [] | _ => True end.
+Proof.
+  intros HI HM (a & b & Sa & Sb & Ka & Kb & La & Lb & Esz & Eal & _) Hne. unfold complete_move.
+  fold (src_of mv). fold (tmp_of mv).
+  destruct (d =? 0).
+  - pose proof (VamDefragInv.swap_inv c v [] [] (src_of mv) (tmp_of mv) a b lr HI Hne Sa Sb (fun H => H) (fun H => H) Ka Kb La Lb Esz Eal) as P.
+    pose proof (swap_MM v [] (src_of mv) (tmp_of mv) a b HM Sa Sb Hne Ka Kb) as PM.
+    destruct (swap_block_allocation v (src_of mv) (tmp_of mv)) as (v1 & r1). cbn [fst] in PM.
+    destruct P as (-> & I1 & _). apply free_or_panic_MM; auto.
+  - destruct (d =? 2).
+    + pose proof (VamDefragStep.free_or_panic_inv c v (src_of mv) HI) as P. pose proof (free_or_panic_MM v (src_of mv) HI HM) as PM.
+      destruct (free_or_panic c v (src_of mv)) as (v1 & r1). destruct r1 as [[]|code| |]; auto.
+      destruct P as ((I1 & _) & _). apply free_or_panic_MM; auto.
+    + apply free_or_panic_MM; auto.
+Qed.
+
+Lemma complete_moves_MM mvs : forall v lr p imm ds,
+  VamInv c v -> MM ms0 v [] -> moves_ok v lr mvs ->
+  let '(v', p', imm', r) := complete_moves c v lr p imm mvs ds in match r with OK _ => MM ms0 v' [] | _ => True end.
+Proof.
+  induction mvs as [|mv rest IH]; intros v lr p imm ds HI HM (Hnd & Hf); cbn [complete_moves]; [exact HM|].
+  destruct (list_alloc_stats v lr) as (pc & pb).
+  inversion Hf as [|? ? Hmv Hrest]; subst.
+  destruct (mv_slots_cons _ _ Hnd) as (Hne & Hs & Ht & Hnd').
+  pose proof (VamDefragStep.complete_move_inv c v lr mv (norm_decision (hd 0 ds)) HI Hmv Hne) as P.
+  pose proof (complete_move_MM v lr mv (norm_decision (hd 0 ds)) HI HM Hmv Hne) as PM.
+  destruct (complete_move c v mv (norm_decision (hd 0 ds))) as (v1 & r). destruct r as [[]|code| |]; auto.
+  destruct (list_alloc_stats v1 lr) as (ac & ab).
+  assert (Hok1 : moves_ok v1 lr rest).
+  { apply (moves_ok_frame v v1 lr [src_of mv; tmp_of mv] rest); [apply P| |split; auto].
+    intros s [<-|[<-|[]]]; auto. }
+  apply IH; [apply P|exact PM|exact Hok1].
+Qed.
+
+Lemma defrag_end_MM v run ds :
+  VamInv c v -> MM ms0 v [] -> run_ok v run ->
+  let '(v', run', r) := defrag_end c v run ds in match r with OK _ => MM ms0 v' [] | _ => True end.
+Proof.
+  intros HI HM (Hb & Ha & Hr). unfold defrag_end.
+  destruct (nth_z (dr_ctxs run) (dr_progress run)) as [dc|] eqn:En; [|exact HM].
+  destruct (Defrag.c_moves (dc_ctx dc)) as [|m0 ms1] eqn:Em; [exact HM|].
+  destruct (Hr _ _ En) as (Hok & _). specialize (Hok eq_refl). rewrite Em in Hok.
+  unfold complete_pass. rewrite Em.
+  pose proof (complete_moves_MM (m0 :: ms1) v (dc_lr dc) (dr_pass run) [] ds HI HM Hok) as P.
+  destruct (complete_moves c v (dc_lr dc) (dr_pass run) [] (m0 :: ms1) ds) as (((v1 & p1) & imm) & r).
+  destruct r as [[]|code| |]; auto.
+  destruct (get_blist v1 (dc_lr dc)) as [l|] eqn:Hg; [|exact I].
+  pose proof (swap_immovable_fold imm (bl_blocks l) (Defrag.c_immovable (dc_ctx dc))) as Pm.
+  destruct (fold_left _ imm (bl_blocks l, Defrag.c_immovable (dc_ctx dc))) as (bs & immc). cbn [fst] in Pm.
+  apply (MM_lists ms0 v1 []); [exact P|apply set_blist_m|apply tab_frame_set_blist|apply blocks_sub_perm; [exact Hg|apply Permutation_sym; exact Pm]].
+Qed.
+
+(* ---------------------------------------------------------------- BeginDefragmentation, Finish *)
+
+Lemma prepare_lists_MM lrs : forall v, MM ms0 v [] -> MM ms0 (fold_left prepare_list lrs v) [].
+Proof.
+  induction lrs as [|lr tl IH]; intros v HM; cbn [fold_left]; [exact HM|]. apply IH. unfold prepare_list.
+  destruct (get_blist v lr) as [l|] eqn:Hg; [|exact HM].
+  apply (MM_lists ms0 v []); [exact HM|apply set_blist_m|apply tab_frame_set_blist|].
+  apply (blocks_sub_set_blist v lr l _ Hg). cbn. intros b' Hb'. exists b'. split; [|auto].
+  eapply Permutation_in; [apply Permutation_sym; apply sort_by_free_size_perm|exact Hb'].
+Qed.
+
+Lemma defrag_begin_MM v flags pool mb ma : MM ms0 v [] -> MM ms0 (fst (defrag_begin c v flags pool mb ma)) [].
+Proof.
+  intros HM. unfold defrag_begin. destruct (_ || _); [exact HM|]. destruct (_ =? 3); [exact HM|].
+  destruct (match pool with Some uid => list_is_linear v (LPool uid) | None => false end); [exact HM|].
+  destruct (negb _); cbn [fst]; apply prepare_lists_MM; exact HM.
+Qed.
+
+Lemma defrag_finish_MM v run : MM ms0 v [] -> MM ms0 (fst (defrag_finish v run)) [].
+Proof.
+  unfold defrag_finish. cbn [fst]. revert v. induction (dr_ctxs run) as [|dc tl IH]; intros v HM; cbn [fold_left]; [exact HM|].
+  apply IH. destruct (get_blist v (dc_lr dc)) as [l|] eqn:Hg; [|exact HM].
+  apply (MM_lists ms0 v []); [exact HM|apply set_blist_m|apply tab_frame_set_blist|].
+  apply (blocks_sub_set_blist v (dc_lr dc) l _ Hg). cbn. intros b' Hb'. exists b'. auto.
+Qed.
+
+(* ---------------------------------------------------------------- one defragmentation call *)
+
+Lemma dexec_MM v run o :
+  VamInv c v -> MM ms0 v [] -> drun_ok v run -> dop_ok v run o ->
+  let '(v', run', r, dr) := dexec c v run o in match r with OK _ | ER _ => MM ms0 v' [] | _ => True end.
+Proof.
+  intros HI HM Hr Hok. destruct o as [flags pool mb ma| |ds|]; cbn [dexec].
+  - pose proof (defrag_begin_MM v flags pool mb ma HM) as P. destruct (defrag_begin c v flags pool mb ma) as (v1 & r). cbn [fst] in P.
+    destruct r as [rn|code| |]; auto.
+  - destruct run as [rn|]; [|exact I]. destruct Hok as (Hidle & HG). destruct Hr as (Hb & Ha & Hr).
+    pose proof (pass_loop_MM (S (length (dr_ctxs rn))) v rn (Pass.pass_init (dr_max_bytes rn) (dr_max_allocs rn)) HI HM Hidle Hb Ha
+                  (PassProofs.pass_init_running _ _ Hb Ha) HG) as P.
+    pose proof (defrag_pass_inv c v rn HI (conj Hb (conj Ha Hr)) Hidle HG) as PS.
+    unfold defrag_pass in *. destruct (pass_loop c _ v rn _) as ((v1 & rn') & r). destruct r as [mvs|code| |]; auto. contradiction.
+  - destruct run as [rn|]; [|exact I].
+    pose proof (defrag_end_MM v rn ds HI HM Hr) as P. pose proof (VamDefragStep.defrag_end_inv c v rn ds HI Hr) as PS.
+    destruct (defrag_end c v rn ds) as ((v1 & rn') & r). destruct r as [b|code| |]; auto. contradiction.
+  - destruct run as [rn|]; [|exact I].
+    pose proof (defrag_finish_MM v rn HM) as P. destruct (defrag_finish v rn) as (v1 & st). exact P.
+Qed.
+
 End WithCfg.
+
+(* ---------------------------------------------------------------- histories with defragmentation *)
+
+Section Thm.
+Variable c : vcfg.
+Hypothesis Ha : cfg_acct c.
+Let Hc := ca_ok c Ha.
+Let Hmax := ca_max c Ha.
+Let Hlarge := ca_large c Ha.
+
+Theorem dstep_preservesM v run o f :
+  VamInv c v -> MapInv v [] -> drun_ok v run -> dop_ok v run o ->
+  let '(v', run', r, calls, dr) := dstep c v run o f in
+  r <> RPanic -> r <> RStuck -> MapInv v' [] /\ replay (m_mems (v_m v)) calls (m_mems (v_m v')).
+Proof.
+  intros HI HM Hr Hok. unfold dstep.
+  set (ms0 := m_mems (v_m v)).
+  set (v0 := set_m v (clear_calls (set_fault (v_m v) f 0))).
+  assert (Hsub : forall w m', MapInv w [] -> m_mems m' = m_mems (v_m w) -> MapInv (set_m w m') []).
+  { intros w m' I E. apply (MapInv_sub w []); [exact I|exact E|apply blocks_sub_eq; intros; apply get_blist_set_m|apply deds_sub_nil; apply tab_frame_set_m]. }
+  assert (I0 : VamInv c v0).
+  { unfold v0, VamInv. apply VamInvU_mach_same; [exact HI|]. split; cbn; [apply mems_same_refl|lia]. }
+  assert (M0 : MM ms0 v0 []).
+  { split; [apply Hsub; [exact HM|reflexivity]|]. unfold LogOk, v0, ms0. cbn. constructor. }
+  assert (Hr0 : drun_ok v0 run) by (destruct run as [rn|]; [apply run_ok_set_m; exact Hr|exact I]).
+  assert (Hok0 : dop_ok v0 run o) by (destruct o; cbn in *; auto).
+  pose proof (dexec_MM c Hc Hmax Hlarge ms0 v0 run o I0 M0 Hr0 Hok0) as E.
+  destruct (dexec c v0 run o) as (((v1 & run1) & r) & dr).
+  intros Hp Hs. destruct r as [[]|code| |]; cbn in Hp, Hs; try congruence; destruct E as (M & L);
+    (split; [apply Hsub; [exact M|reflexivity]|exact L]).
+Qed.
+
+Theorem reachDA_map v run : reachDA c v run -> MapInv v [].
+Proof.
+  intros R. induction R as [nslots v H Hn|v run o f v' r calls R IH Hidle Hok Hd Hs Hp Hk|v run o f v' run' r calls dr R IH Hok Hs Hp Hk Hb].
+  - eapply (vam_new_MapInv c Ha); eauto.
+  - destruct (reachDA_inv c Ha v run R) as (HI & _).
+    pose proof (step_preservesM c Ha v o f HI IH Hok Hd) as P. rewrite Hs in P. apply P; auto.
+  - destruct (reachDA_inv c Ha v run R) as (HI & Hr).
+    pose proof (dstep_preservesM v run o f (va_s _ _ _ _ HI) IH Hr Hok) as P. rewrite Hs in P. apply P; auto.
+Qed.
+
+(* C08 for the defragmentation calls *)
+Theorem dstep_calls_valid v run o f v' run' r calls dr :
+  reachDA c v run -> dop_ok v run o -> dstep c v run o f = (v', run', r, calls, dr) -> r <> RPanic -> r <> RStuck ->
+  replay (m_mems (v_m v)) calls (m_mems (v_m v')).
+Proof.
+  intros R Hok Hs Hp Hk. destruct (reachDA_inv c Ha v run R) as (HI & Hr).
+  pose proof (dstep_preservesM v run o f (va_s _ _ _ _ HI) (reachDA_map v run R) Hr Hok) as P. rewrite Hs in P. apply P; auto.
+Qed.
+
+(* C14 after moves: device and SynchronizedMemory agree on every block *)
+Theorem block_mapping_agrees_defrag v run lr l b :
+  reachDA c v run -> get_blist v lr = Some l -> In b (bl_blocks l) ->
+  exists d, find_mem (m_mems (v_m v)) (bk_mem b) = Some d /\ dm_mapped d = SyncMem.mapped (bk_sm b) /\
+            (SyncMem.mapped (bk_sm b) = true <-> 0 < SyncMem.mapRefs (bk_sm b) \/ SyncMem.extra (bk_sm b) = true).
+Proof.
+  intros R Hg Hb. destruct (mi_blocks _ _ (reachDA_map v run R) _ _ _ Hg Hb) as (d & F & (H0 & H1 & _) & Fr).
+  destruct (H1 Fr) as (_ & E & Hiff). exists d. cbn in E. auto.
+Qed.
+
+End Thm.
